@@ -130,8 +130,11 @@ Fresh == [cred |-> "cookie", age |-> 0]
 
 InC02(r) == \E u \in NameClasses, k \in GoodKeys, p \in UserPaths, w \in Worlds, t \in {"self", "other", "othercase"} :
               r = Req(p, u, k, D1h, Fresh, t, w)
-InC03(r) == \/ \E d \in Durations, a \in AuthShapes, p \in UserPaths :
-                 r = Req(p, IF a.cred \in {"ipcert", "ipcert_long"} THEN Svc ELSE Alice, Key("p256", "ecdsa", 256, 0, TRUE), d, a, "self", "plain")
+\* where the client puts the duration parameter: in the request body (the stock client) or in the URL's query string
+DurLocs == {"body", "query"}
+InC03(r) == \/ \E d \in Durations, a \in AuthShapes, p \in UserPaths, loc \in DurLocs :
+                 r = [Req(p, IF a.cred \in {"ipcert", "ipcert_long"} THEN Svc ELSE Alice, Key("p256", "ecdsa", 256, 0, TRUE), d, a, "self", "plain")
+                      EXCEPT !.world = IF loc = "query" THEN "plain-durquery" ELSE "plain"]
             \/ \E p \in AutoPaths \cup {"awsrole"}, d \in {Dur("absent", FALSE, TRUE, 0), Dur("100h", TRUE, TRUE, 360000),
                                                             Dur("2562047h47m16.854775807s", TRUE, TRUE, MaxI)} :
                  r = Req(p, Svc, Key("p256", "ecdsa", 256, 0, TRUE), d,
